@@ -145,6 +145,10 @@ add2("ewm(com=0).mean", "ewm.mean", "last", lambda d: d.x.ewm(com=0).mean(), cla
 add2("frame.ewm(span=4).x.mean", "ewm.mean", "last", lambda d: d.ewm(span=4).x.mean(), classify=EWM)
 add2("frame.ewm(halflife=2).x.mean", "ewm.mean", "last", lambda d: d.ewm(halflife=2).x.mean(), classify=EWM)
 add2("frame.ewm(com=3)[[x,y]].mean", "ewm.mean", "last", lambda d: d.ewm(com=3)[["x", "y"]].mean(), classify=EWM, cols=("x", "y"))
+add2("frame.ewm(alpha=.2).x.mean", "ewm.mean", "last", lambda d: d.ewm(alpha=0.2).x.mean(), classify=EWM)
+add2("ewm(3).mean[positional com]", "ewm.mean", "last", lambda d: d.x.ewm(3).mean(), classify=EWM)
+add2("frame.ewm(1,None).x.mean[positional]", "ewm.mean", "last", lambda d: d.ewm(1, None).x.mean(), classify=EWM)
+add2("rolling(2,2).sum[positional]", "rolling(n).sum", "concat", lambda d: d.x.rolling(2, 2).sum())
 add2("frame.rolling(3).x.sum", "rolling(n).sum", "concat", lambda d: d.rolling(3).x.sum())
 add2("frame.rolling(2).x.mean", "rolling(n).mean", "concat", lambda d: d.rolling(2).x.mean())
 add2("frame.rolling(2)[[x,y]].sum", "rolling(n).sum", "concat", lambda d: d.rolling(2)[["x", "y"]].sum(), cols=("x", "y"))
@@ -193,7 +197,8 @@ def plan(ctx):
                 F.Suite(SECOND, "v", {1: 2, 2: 2, 3: 2, 4: 1}),
                 F.Suite(SECOND, "inc", {3: 2, 4: 2, 5: 0}),
                 F.Suite(LONG, "inc", {5: 1, 6: 0}),
-                F.Suite(SECOND_T, "v", {2: 2, 3: 2, 4: 0}, grid="ns")]
+                F.Suite(SECOND_T, "v", {2: 2, 3: 2, 4: 0}, grid="ns"),
+                F.Suite(["rolling(2).sum", "rolling(3).mean", "rolling(2).count", "frame.rolling(2).x.mean", "rolling(2).sum[frame]"], "v", {2: 2, 3: 2, 4: 0}, grid="ns")]
     return [F.Suite(ROWS, "v", {1: 1, 2: 1, 3: 1}),
             F.Suite(T_NS, "v", {1: 1, 2: 1}, grid="ns"),
             F.Suite(T_NS_CORE, "v", {3: 1}, grid="ns"),
@@ -203,7 +208,8 @@ def plan(ctx):
             F.Suite(SECOND, "v", {1: 1, 2: 1, 3: 1}),
             F.Suite(SECOND, "inc", {3: 1, 4: 0}),
             F.Suite(LONG + ["ewm(com=3).mean", "frame.rolling(3).x.sum"], "inc", {5: 0}),
-            F.Suite(SECOND_T, "v", {2: 1, 3: 1}, grid="ns")]
+            F.Suite(SECOND_T, "v", {2: 1, 3: 1}, grid="ns"),
+            F.Suite(["rolling(2).sum", "rolling(3).mean", "rolling(2).count", "frame.rolling(2).x.mean", "rolling(2).sum[frame]"], "v", {2: 1, 3: 1}, grid="ns")]
 
 
 RULE = ("every table of R rows over x in {1,2,NaN} (y = a second column with a shifted NaN pattern), every composition "
